@@ -110,8 +110,7 @@ theorem long_initial_ne_empty (ns did did' initial : String) (req : Json) (size 
 
 /-- **what offline resolution reports**: the result's method metadata carries the recovery
     commitment of the suffix data embedded in the DID, `published = false`, the equivalent id is
-    the short form, and the document id is the long-form DID that was asked for (after removal of
-    middle segments by `ParseDID`) -/
+    the short form, and the document id is the long-form DID that was asked for -/
 theorem resolve_reports (ns did : String) (r : Json) (h : Did.resolve H orc ns did = some r) :
     ∃ did' initial req size op md method,
       parseDID ns did = .long did' initial req size ∧
@@ -127,12 +126,14 @@ theorem resolve_reports (ns did : String) (r : Json) (h : Did.resolve H orc ns d
         method.get? "anchorOrigin" = rm.anchorOrigin ∧
         (∃ kv rest, rm.doc = some (.obj (kv :: rest))) ∧
         Transformer.transform defaultOpts rm (unpublishedInfo ns op.uniqueSuffix initial) [] [] = some r) := by
-  obtain ⟨hpre, did', initial, req, size, op, hp, hparse, hlast, hlen⟩ := C17.resolve_shape H orc ns did r h
+  obtain ⟨hpre, did', initial, req, size, op, hp, hparse, hlast, hlen, hdid⟩ := C17.resolve_shape H orc ns did r h
   have hsuffix : String.ofList ((splitColon did'.toList).getLast?.getD []) = op.uniqueSuffix := by
     rw [hlast]; simp
   have hlen' : ¬ (splitColon did'.toList).length < 3 := by omega
   simp only [Did.resolve, hpre, Bool.not_true, Bool.false_eq_true, if_false, hp, hlen', hparse, hsuffix, ne_eq,
     not_true_eq_false] at h
+  have hnot : ¬ (¬ did' = ns ++ ":" ++ op.uniqueSuffix) := fun hc => hc hdid
+  rw [if_neg hnot] at h
   unfold createResponse at h
   simp only at h
   cases happ : Applier.apply H defaultCfg orc
